@@ -56,6 +56,8 @@ type Spec struct {
 	// PreObserveKey (optional) contributes to the state key something that the observation after
 	// the step destroys (e.g. the pending outbox entries, which blocked reads drain).
 	PreObserveKey func(c *StepCtx) string
+	// EnvOps: further environment actions by op kind (no storage call, no model change).
+	EnvOps map[string]func(w *world.World, under storage.Storage)
 	// WorkerStep executes the environment action "one background worker pass".
 	WorkerStep func(w *world.World, under storage.Storage)
 	// Extra is an additional oracle evaluated in the worker after the last op.
@@ -200,6 +202,11 @@ func RunStep(t *testing.T, j job) (res stepResult) {
 		envOp := func(op Op) (Res, bool) {
 			if op.Kind == "WorkerStep" && spec.WorkerStep != nil {
 				spec.WorkerStep(w, d.S)
+				m.Step++
+				return Res{}, true
+			}
+			if f := spec.EnvOps[op.Kind]; f != nil {
+				f(w, d.S)
 				m.Step++
 				return Res{}, true
 			}
@@ -648,7 +655,7 @@ func (s *Search) replayModel(st state) *Model {
 		if i < len(st.Hints) {
 			h = &st.Hints[i]
 		}
-		if op.Kind == "Remap" || op.Kind == "WorkerStep" {
+		if op.Kind == "Remap" || op.Kind == "WorkerStep" || s.Spec.EnvOps[op.Kind] != nil {
 			m.Step++
 			continue
 		}
